@@ -205,3 +205,75 @@ func ZZModelReset() {
 	zzJSON = nil
 	zzRoot = zzNewBucket()
 }
+
+// ZZResumeFieldUpdates: on a record whose five flags are arbitrary, each
+// single-field updater (WriteStarted, HandleStopAfterDownload,
+// HandleStopAfterMetadata, WriteCompleteCmdRun, WriteInfo, WriteBitfield)
+// changes exactly the fields it documents and leaves every other field as
+// written: what a restart reads is what the running torrent holds in memory.
+//
+//vrt:cover ZZResumeFieldUpdates stop-after-metadata handled with stop-after-download set
+//vrt:cover ZZResumeFieldUpdates stop-after-download handled with stop-after-metadata set
+func ZZResumeFieldUpdates() {
+	zzBuckets = map[*bbolt.Bucket]*zzBkt{}
+	zzJSON = nil
+	zzRoot = zzNewBucket()
+	r, err := New(&bbolt.DB{}, []byte("torrents"))
+	vrt.Assert(err == nil && r != nil, "New failed")
+	spec := &Spec{
+		InfoHash:          vrt.Bytes("info_hash", 20),
+		Port:              50000,
+		Name:              "a name",
+		Trackers:          [][]string{{"http://a/announce"}},
+		Info:              vrt.Bytes("info", 2),
+		Bitfield:          vrt.Bytes("bitfield", 2),
+		BytesDownloaded:   1,
+		BytesUploaded:     2,
+		BytesWasted:       3,
+		Version:           2,
+		Started:           vrt.Bool("started"),
+		StopAfterDownload: vrt.Bool("stop_after_download"),
+		StopAfterMetadata: vrt.Bool("stop_after_metadata"),
+		CompleteCmdRun:    vrt.Bool("complete_cmd_run"),
+		Sequential:        vrt.Bool("sequential"),
+	}
+	vrt.Assert(r.Write("id1", spec) == nil, "Write failed")
+	want := *spec
+	nb := vrt.Bytes("new_bytes", 2)
+	switch vrt.Choice("updater", 6) {
+	case 0:
+		v := vrt.Bool("new_started")
+		vrt.Assert(r.WriteStarted("id1", v) == nil, "WriteStarted failed")
+		want.Started = v
+	case 1:
+		vrt.Cover(spec.StopAfterMetadata, "stop-after-download handled with stop-after-metadata set")
+		vrt.Assert(r.HandleStopAfterDownload("id1") == nil, "HandleStopAfterDownload failed")
+		want.Started, want.StopAfterDownload = false, false
+	case 2:
+		vrt.Cover(spec.StopAfterDownload, "stop-after-metadata handled with stop-after-download set")
+		vrt.Assert(r.HandleStopAfterMetadata("id1") == nil, "HandleStopAfterMetadata failed")
+		want.Started, want.StopAfterMetadata = false, false
+	case 3:
+		vrt.Assert(r.WriteCompleteCmdRun("id1") == nil, "WriteCompleteCmdRun failed")
+		want.CompleteCmdRun = true
+	case 4:
+		vrt.Assert(r.WriteInfo("id1", nb) == nil, "WriteInfo failed")
+		want.Info = nb
+	case 5:
+		vrt.Assert(r.WriteBitfield("id1", nb) == nil, "WriteBitfield failed")
+		want.Bitfield = nb
+	}
+	got, err := r.Read("id1")
+	vrt.Assert(err == nil && got != nil, "an updated record cannot be read back")
+	if err != nil || got == nil {
+		return
+	}
+	vrt.Assert(got.Started == want.Started, "started flag after a single-field update is not the documented one")
+	vrt.Assert(got.StopAfterDownload == want.StopAfterDownload, "stop-after-download flag after a single-field update is not the documented one")
+	vrt.Assert(got.StopAfterMetadata == want.StopAfterMetadata, "stop-after-metadata flag after a single-field update is not the documented one")
+	vrt.Assert(got.CompleteCmdRun == want.CompleteCmdRun && got.Sequential == want.Sequential, "complete-cmd-run or sequential flag disturbed by a single-field update")
+	vrt.Assert(len(got.Info) == 2 && got.Info[0] == want.Info[0] && got.Info[1] == want.Info[1], "info bytes after a single-field update are not the documented ones")
+	vrt.Assert(len(got.Bitfield) == 2 && got.Bitfield[0] == want.Bitfield[0] && got.Bitfield[1] == want.Bitfield[1], "bitfield after a single-field update is not the documented one")
+	vrt.Assert(got.Port == want.Port && got.Name == want.Name && got.Version == want.Version && got.BytesDownloaded == 1 && got.BytesUploaded == 2 && got.BytesWasted == 3, "port, name, version or a counter disturbed by a single-field update")
+	vrt.Assert(len(got.InfoHash) == 20 && got.InfoHash[0] == spec.InfoHash[0] && got.InfoHash[19] == spec.InfoHash[19], "info-hash disturbed by a single-field update")
+}
